@@ -34,6 +34,9 @@ def run_one(prop: str, tier: str, replay: str | None = None) -> int:
             getattr(mod, "EXPLANATION", ""),
             getattr(mod, "EXHAUSTIVE", False),
         )
+    except BrokenPipeError:
+        # the reader of our stdout went away; the evidence file is already written
+        return 0 if not any(o.status != "held" for o in rep.obligations) else 1
     except model.AnalysisError as e:
         print(f"ANALYSIS-ERROR property={prop} {e}")
         report.write_failure_evidence(prop, tier, seed, str(e))
